@@ -14,9 +14,13 @@ STOCKS = {
     'nacl-dmso': (('dmso', '20 mL'), ('nacl', '10 mmol')),
     'ternary': (('water', '20 mL'), ('nacl', '20 mmol'), ('na2so4', '4 mmol')),
     'enzyme-bystander': (('water', '20 mL'), ('nacl', '20 mmol'), ('lipase', '4 U')),
+    # the stock also holds a *twin* of the solute (a hydrate: same name, another molar mass) - it is a bystander, not the solute
+    'twin-pair': (('water', '20 mL'), ('nacl', '20 mmol'), ('nacl_h', '6 mmol')),
 }
-SOLUTE = {'nacl-water': 'nacl', 'tea-water': 'tea', 'nacl-dmso': 'nacl', 'ternary': 'nacl', 'enzyme-bystander': 'nacl'}
-OWN_SOLVENT = {'nacl-water': 'water', 'tea-water': 'water', 'nacl-dmso': 'dmso', 'ternary': 'water', 'enzyme-bystander': 'water'}
+SOLUTE = {'nacl-water': 'nacl', 'tea-water': 'tea', 'nacl-dmso': 'nacl', 'ternary': 'nacl', 'enzyme-bystander': 'nacl',
+          'twin-pair': 'nacl'}
+OWN_SOLVENT = {'nacl-water': 'water', 'tea-water': 'water', 'nacl-dmso': 'dmso', 'ternary': 'water', 'enzyme-bystander': 'water',
+               'twin-pair': 'water'}
 SOLVENT_CONTAINERS = {'VP': (('@own', '30 mL'),), 'VS': (('@own', '30 mL'), ('@solute', '@small'))}
 CONC_UNITS = ['M', 'mM', 'm', 'mol/L', 'mmol/mL', 'g/L', 'g/mL', 'g/g', 'g/kg', 'mol/mol', 'L/L', 'mL/L', '%w/w', '%v/v', '%w/v',
               'mg/10 mL']
@@ -55,6 +59,13 @@ def specs():
                     # vessel, so what can be prepared does not depend on the size of the vessels the inputs came in
                     yield {'stock': stock, 'solvent': solvent, 'cu': cu, 'ratio': [ratio.numerator, ratio.denominator], 'qu': qu,
                            'size': size, 'cap': cap}
+    # the solute asked for is a twin of what the stock holds (same name, another substance): the stock cannot reach any non-zero
+    # concentration of it, so the request has to be refused
+    for stock in ('nacl-water', 'ternary'):
+        for solvent in ('own', 'other', 'VP', 'VS'):
+            for cu, ratio in itertools.product(CONC_UNITS, (F(1, 10), F(1, 2))):
+                yield {'stock': stock, 'solvent': solvent, 'cu': cu, 'ratio': [ratio.numerator, ratio.denominator], 'qu': 'mL',
+                       'size': 'small', 'cap': 'inf', 'ask': 'nacl_h'}
 
 
 _G = {}
@@ -132,6 +143,19 @@ def run_spec(sp):
             + (',tight-vessels' if tight else ''))
     fps = (e1.exact_obj(source), e1.exact_obj(solvent))
     env.clear_caches(pp)
+    if sp.get('ask'):
+        ask = subs[sp['ask']]
+        call = call.replace(f", {solute.name}, ", f", <{sp['ask']}: a twin of {solute.name}>, ")
+        try:
+            C.create_solution_from(source, ask, cstr, solvent, qstr, 'N')
+        except ValueError:
+            return [], ('refuse', 'ValueError')
+        except Exception as e:  # noqa
+            return [V(f"create_solution_from | wrong-exception | absent-solute,{feat}", f"{call} raised {type(e).__name__}: {e}",
+                      case)], ('refuse', type(e).__name__)
+        return [V(f"create_solution_from | accepted-infeasible | absent-solute,{feat}",
+                  f"{call}: the stock holds none of the requested solute (only a substance of the same name) but the call returned",
+                  case)], ('refuse', 'returned')
     try:
         res = C.create_solution_from(source, solute, cstr, solvent, qstr, 'N')
     except ValueError as e:
@@ -226,12 +250,12 @@ def run_spec(sp):
 
 def run(col):
     pp = env.load()
-    col.rule = ("5 stocks (binary solid/liquid solute, dense solvent, ternary, enzyme bystander) x solvent {own, another liquid, "
+    col.rule = ("6 stocks (binary solid/liquid solute, dense solvent, ternary, enzyme bystander, a twin of the solute as bystander) x solvent {own, another liquid, "
                 "container of pure solvent, container holding some solute} x 16 concentration spellings x ratio to the stock "
                 "{0.1, 0.5, 1, 2} x 7 quantity units x size {a tenth of the stock, all of it, more} x input vessels {unlimited, 2 % "
                 "head-room}; the request is derived and "
                 "classified by an exact 2x2 rational solve, the result judged by definition (total, concentration, uniform "
-                "aliquots, conservation). Non-trivial = distinct (stock, solvent form, units, size, ratio, expectation, outcome)")
+                "aliquots, conservation); plus requests for a twin of the solute the stock holds (must be refused). Non-trivial = distinct (stock, solvent form, units, size, ratio, expectation, outcome)")
     col.assumptions += ["ratio 1 and requests that need exactly the whole stock are don't-care (boundary)"]
     vals = [col.seed % 3] if col.tier == 'quick' else [0, 1, 2]
     THOROUGH['on'] = col.tier == 'thorough'
@@ -242,7 +266,8 @@ def run(col):
         classes = set()
         for sp, (vs, oc) in zip(sps, res):
             col.add(vs)
-            classes.add((sp['stock'], sp['solvent'], sp['cu'], ref.split_unit(sp['qu'])[1], sp['size'], tuple(sp['ratio']), sp['cap'], oc))
+            classes.add((sp['stock'], sp['solvent'], sp['cu'], ref.split_unit(sp['qu'])[1], sp['size'], tuple(sp['ratio']), sp['cap'],
+                         sp.get('ask'), oc))
         col.count('transitions', len(sps))
         col.count('traces', len(sps))
         col.count('evaluations', len(sps))
